@@ -240,3 +240,86 @@ func c03DoubleEnd(tier string, seed int64, idx int, scratch string) rt.CaseResul
 	}
 	return c
 }
+
+func init() {
+	p := Registry["C03"]
+	p.Roles["conflictstorm"] = Role{N: func(t string) int { return tierN(t, 4, 32) }, Case: c03ConflictStorm}
+	p.Rule += " Role conflictstorm: 600-3000 snapshot commits in a row that lose to an autocommit write (one transaction open at a time; each failed Commit followed by the customary Rollback), interleaved with rolled-back and successful transactions: every Commit fails with ErrTxSerialization exactly as the first one did, the committed state follows the autocommit writes, and Begin keeps working (whatever a failed Commit holds on to must be given back)."
+}
+
+// c03ConflictStorm: hundreds of failed commits must not wear anything out.
+func c03ConflictStorm(tier string, seed int64, idx int, scratch string) rt.CaseResult {
+	var c rt.CaseResult
+	mode := dbx.Inline
+	if idx%4 == 3 {
+		mode = dbx.Grpc
+	}
+	env, err := dbx.Open(dbx.Options{Mode: mode, Dir: filepath.Join(scratch, "db")})
+	if err != nil {
+		c.Violate("open-failed", err.Error(), nil)
+		return c
+	}
+	defer env.Close()
+	rng := seqrun.Rng(seed, "C03s", idx)
+	rounds := tierN(tier, 600, 3000)
+	if mode == dbx.Grpc {
+		rounds /= 2
+	}
+	var cur []byte
+	for it := 0; it < rounds; it++ {
+		if it%32 == 0 {
+			rt.Beat()
+		}
+		rp := map[string]any{"seed": seed, "case": idx, "mode": modeName(mode), "round": it}
+		tx, err := env.DB.Begin(ctxBg, verif.IsoLevel(2+rng.Intn(2)))
+		if err != nil {
+			c.Violate("begin-failed after-many-failed-commits", fmt.Sprintf("round %d: %v", it, err), rp)
+			return c
+		}
+		if err := tx.Set(ctxBg, "k", []byte(fmt.Sprintf("tx-%d-%d", idx, it))); err != nil {
+			c.Violate("write-in-transaction-failed", err.Error(), rp)
+			return c
+		}
+		kind := it % 8
+		c.Evals++
+		switch {
+		case kind == 6: // rolled back
+			if err := tx.Rollback(ctxBg); err != nil {
+				c.Violate("rollback-failed", err.Error(), rp)
+				return c
+			}
+		case kind == 7: // nobody interferes: the commit succeeds
+			if err := tx.Commit(ctxBg); err != nil {
+				c.Violate("clean-commit-rejected class="+string(seqrun.Class(err))+" after-many-failed-commits", fmt.Sprintf("round %d: a commit without any conflict failed: %v", it, err), rp)
+				return c
+			}
+			cur = []byte(fmt.Sprintf("tx-%d-%d", idx, it))
+		default:
+			cur = []byte(fmt.Sprintf("auto-%d-%d", idx, it))
+			if err := env.DB.Set(ctxBg, "k", cur); err != nil {
+				c.Violate("write-failed", err.Error(), rp)
+				return c
+			}
+			if err := tx.Commit(ctxBg); seqrun.Class(err) != refmodel.TxSerial {
+				c.Violate("conflict-commit-accepted after-many-failed-commits got="+string(seqrun.Class(err)), fmt.Sprintf("round %d: the commit of a snapshot transaction whose key was written by an autocommit Set after its Begin returned %v", it, err), rp)
+				return c
+			}
+			if err := tx.Rollback(ctxBg); err != nil {
+				c.Violate("late-rollback-not-a-no-op", err.Error(), rp)
+				return c
+			}
+		}
+		if it%50 == 49 {
+			b, gerr := env.DB.Get(ctxBg, "k")
+			if gerr != nil || !bytes.Equal(b, cur) {
+				c.Violate("read-wrong-value after-many-failed-commits", fmt.Sprintf("round %d: k reads %q (%v), committed %q", it, b, gerr, cur), rp)
+				return c
+			}
+		}
+	}
+	c.AddDistinct(fmt.Sprintf("conflictstorm/%s/%d", modeName(mode), rounds/500*500))
+	if idx == 0 {
+		c.Sample = map[string]any{"rounds": rounds, "mode": modeName(mode)}
+	}
+	return c
+}
